@@ -32,6 +32,9 @@ UNITS = [
     U("null", "h_null", functions=[]),
     U("lemma_recovery", "h_lemma_recovery", functions=[], replay={"driver": "C07_replay.c", "mode": "zero_size", "args": [], "kf_region": True, "only_for": ["p_shm_new fails only on allocation failure", "clean-up step 1"]}),
 ]
+# p_shm_lock / p_shm_unlock ARE p_semaphore_acquire / p_semaphore_release on the segment's lock: their contracts (a unit is
+# consumed exactly once, EINTR never surfaces, one post per release) are part of "one system-wide mutex per name"
+UNITS += [dict(u, id="sem_" + u["id"], harness="../C06/" + u["harness"]) for u in c06.UNITS if u["id"] in ("acquire", "release")]
 REQUIRE_CONFIGURED = ["pshm-posix.c", "psemaphore-posix.c"]
 TECHNIQUE = "CBMC obligations and loop contracts over the real pshm-posix.c together with the real psemaphore-posix.c, against ghost models of the POSIX shm and semaphore namespaces, quantified over every namespace state (superset of all crash states) and every EINTR count"
 LEVEL_TEXT = ("p_shm_new/free/take_ownership/lock/unlock/getters as obligations on the real code for EVERY state of the segment name (absent / any size incl. 0) and of its lock semaphore "
